@@ -4,6 +4,7 @@ import (
 	"fmt"
 	"go/ast"
 	"go/token"
+	"go/types"
 	"reflect"
 	"sort"
 	"strconv"
@@ -24,6 +25,10 @@ type genModel struct {
 	Index   map[int64]int // tag → index among all +field fields
 	Fields  []string
 	Extra   []int64 // value-element type numbers of map fields
+	// element fields (every +field kind except the three that write no element of their
+	// own: procedureArgument, offsetMarker, rangeMarker) that carry no TLV type number
+	Untagged []string
+	NElem    int
 }
 
 // discoverModels scans the non-generated files of every package that has a
@@ -80,10 +85,14 @@ func discoverModels(p *core.Prog) (models []*genModel, genFiles int) {
 						continue
 					}
 					isField := false
+					kind := ""
 					for _, cm := range f.Doc.List {
 						t := strings.TrimSpace(strings.TrimPrefix(cm.Text, "//"))
 						if strings.HasPrefix(t, "+field:") {
 							isField = true
+							if ps := strings.Split(t, ":"); len(ps) >= 2 {
+								kind = ps[1]
+							}
 							// map fields carry the TLV type of their value element in the annotation
 							parts := strings.Split(t, ":")
 							if len(parts) >= 5 && parts[1] == "map" {
@@ -96,13 +105,21 @@ func discoverModels(p *core.Prog) (models []*genModel, genFiles int) {
 					if !isField {
 						continue
 					}
+					tagged := false
 					if f.Tag != nil {
 						tag, _ := strconv.Unquote(f.Tag.Value)
 						if v, ok := reflect.StructTag(tag).Lookup("tlv"); ok {
 							if n, err := strconv.ParseInt(v, 0, 64); err == nil && n != 0 {
 								m.Tags = append(m.Tags, n)
 								m.Index[n] = idx
+								tagged = true
 							}
+						}
+					}
+					if kind != "procedureArgument" && kind != "offsetMarker" && kind != "rangeMarker" {
+						m.NElem++
+						if !tagged {
+							m.Untagged = append(m.Untagged, f.Names[0].Name+" ("+kind+")")
 						}
 					}
 					m.Fields = append(m.Fields, f.Names[0].Name)
@@ -157,6 +174,124 @@ func C13(c *core.Ctx) {
 	models, genFiles := discoverModels(p)
 	c.Floor("R13.1", "generated files", genFiles, 11)
 	c.Floor("R13.1", "tlv models discovered", len(models), 79)
+	// ---- R13.7 in a map field the value element is looked for in a loop that treats the
+	// elements between key and value like any other position of the block (skip unless
+	// critical): the comparison of the element type with the value's type number sits in a
+	// `for` inside the key's case that also calls reader.Skip
+	{
+		nMaps := 0
+		for _, m := range models {
+			if len(m.Extra) == 0 {
+				continue
+			}
+			fd := findMethodDecl(m.Pkg, m.Name+"ParsingContext", "Parse")
+			if fd == nil {
+				continue
+			}
+			rel := strings.TrimPrefix(m.Pkg.PkgPath, core.ModPath+"/")
+			isExtra := func(k int64) bool {
+				for _, x := range m.Extra {
+					if x == k {
+						return true
+					}
+				}
+				return false
+			}
+			var stack []ast.Node
+			found, inLoopWithSkip := 0, 0
+			ast.Inspect(fd.Body, func(n ast.Node) bool {
+				if n == nil {
+					stack = stack[:len(stack)-1]
+					return true
+				}
+				stack = append(stack, n)
+				be, ok := n.(*ast.BinaryExpr)
+				if !ok || (be.Op != token.EQL && be.Op != token.NEQ) {
+					return true
+				}
+				id, ok := be.X.(*ast.Ident)
+				if !ok || id.Name != "typ" {
+					return true
+				}
+				k, ok := constOf(m.Pkg, be.Y)
+				if !ok || !isExtra(k) {
+					return true
+				}
+				found++
+				// nearest enclosing for-statement below the switch on typ
+				for i := len(stack) - 1; i >= 0; i-- {
+					if _, isSw := stack[i].(*ast.SwitchStmt); isSw {
+						break
+					}
+					if fs, isFor := stack[i].(*ast.ForStmt); isFor {
+						hasSkip := false
+						ast.Inspect(fs.Body, func(x ast.Node) bool {
+							if ce, ok := x.(*ast.CallExpr); ok {
+								if se, ok := ce.Fun.(*ast.SelectorExpr); ok && se.Sel.Name == "Skip" {
+									hasSkip = true
+								}
+							}
+							return true
+						})
+						if hasSkip {
+							inLoopWithSkip++
+						}
+						break
+					}
+				}
+				return true
+			})
+			if found == 0 {
+				continue
+			}
+			nMaps++
+			c.Decide(inLoopWithSkip == found, "R13.7", "map-value-found-past-unknown-elements:"+rel+"."+m.Name, p.Pos(m.Pos), "the value element of the map field is looked for in a loop that skips unrecognised non-critical elements", "the generated parser of "+rel+"."+m.Name+" demands the value element of a map entry immediately after its key: an unrecognised non-critical element between the two (or a critical one with ignoreCritical) makes the whole message fail to decode, although it is skipped at every other position")
+		}
+		c.Floor("R13.7", "models with a map field", nMaps, 2)
+	}
+	// ---- R13.8 a no-copy encoder announces 0 buffers for a value with every field absent:
+	// its EncodeInto does not index the first buffer of the wire plan unconditionally
+	{
+		nNC := 0
+		for _, m := range models {
+			fn := p.Func(m.Pkg.PkgPath, m.Name+"Encoder", "EncodeInto")
+			if fn == nil || fn.Blocks == nil || len(fn.Params) < 3 {
+				continue
+			}
+			wire := fn.Params[2]
+			if nt, ok := wire.Type().(*types.Named); !ok || nt.Obj().Name() != "Wire" {
+				continue
+			}
+			rel := strings.TrimPrefix(m.Pkg.PkgPath, core.ModPath+"/")
+			for _, sk := range core.IndexSinks(fn) {
+				if core.Strip(sk.Container) != ssa.Value(wire) {
+					continue
+				}
+				if k, isC := core.ConstInt(core.StripConv(sk.Index)); !isC || k != 0 {
+					continue
+				}
+				nNC++
+				v := core.IndexGuarded(fn, sk, nil)
+				c.Decide(v.OK, "R13.8", "nocopy-first-buffer-guarded:"+rel+"."+m.Name, c.Pos(sk.Instr), "wire[0] is read only when the wire plan is not empty", "the no-copy encoder of "+rel+"."+m.Name+" reads wire[0] unconditionally: for a value with every field absent the wire plan is empty (Init announces 0 bytes) and EncodeInto panics instead of yielding those 0 bytes")
+			}
+		}
+		c.Floor("R13.8", "first-buffer reads of no-copy encoders", nNC, 5)
+	}
+	// ---- R13.6 every element field of every model has a TLV type number of its own: a field
+	// without a tag is written as type 0, which every generated parser — its own included —
+	// treats as an unrecognised critical element
+	{
+		nElem := 0
+		for _, m := range models {
+			nElem += m.NElem
+			if len(m.Untagged) > 0 {
+				rel := strings.TrimPrefix(m.Pkg.PkgPath, core.ModPath+"/")
+				c.Viol("R13.6", "element-field-has-type-number:"+rel+"."+m.Name, p.Pos(m.Pos), fmt.Sprintf("model %s.%s: field(s) %s have no tlv type number: the generated encoder writes them as TLV type 0 and the generated parser rejects type 0 as an unrecognised critical element, so a value with the field set does not decode", rel, m.Name, strings.Join(m.Untagged, ", ")))
+			}
+		}
+		c.Decide(true, "R13.6", "element-field-has-type-number", "-", fmt.Sprintf("%d element fields in %d models, each with a non-zero tlv tag (unless reported)", nElem, len(models)), "")
+		c.Floor("R13.6", "element fields", nElem, 200)
+	}
 	c.Extra["models"] = len(models)
 
 	nOrdered := 0
@@ -242,10 +377,21 @@ func C13(c *core.Ctx) {
 		}
 		// map value elements: the parser tests them with typ != K
 		ast.Inspect(parse.Body, func(n ast.Node) bool {
-			if be, ok := n.(*ast.BinaryExpr); ok && be.Op == token.NEQ {
+			if be, ok := n.(*ast.BinaryExpr); ok && (be.Op == token.NEQ || be.Op == token.EQL) {
 				if id, ok := be.X.(*ast.Ident); ok && id.Name == "typ" {
 					if k, ok := constOf(m.Pkg, be.Y); ok {
-						cases = append(cases, k)
+						// `typ != K → error` (value must follow the key) or, in the form that
+						// skips unknown elements between key and value, `typ == K → value found`;
+						// the equality form counts only for a value type of the definition
+						isExtra := false
+						for _, x := range m.Extra {
+							if x == k {
+								isExtra = true
+							}
+						}
+						if be.Op == token.NEQ || isExtra {
+							cases = append(cases, k)
+						}
 					}
 				}
 			}
@@ -402,6 +548,21 @@ func C13(c *core.Ctx) {
 				lenV = v
 			}
 		}
+		// the type of the element under test: the main loop's typ, or the first read of a later
+		// (typ, l) pair (the inner loop of a map field reads the elements between key and value)
+		isTypRead := func(v ssa.Value) bool {
+			if v == typV {
+				return true
+			}
+			sorted := append([]ssa.Value{}, tlReads...)
+			sort.Slice(sorted, func(i, j int) bool { return readPos(sorted[i]) < readPos(sorted[j]) })
+			for i := 0; i < len(sorted); i += 2 {
+				if sorted[i] == v {
+					return true
+				}
+			}
+			return false
+		}
 		ign := &core.Atom{Name: "ignoreCritical", Match: func(cond ssa.Value) (int, int) {
 			if core.Strip(cond) == ignore {
 				return 1, -1
@@ -410,7 +571,7 @@ func C13(c *core.Ctx) {
 		}}
 		le31 := &core.Atom{Name: "typ<=31", Match: func(cond ssa.Value) (int, int) {
 			op, x, y, ok := core.Cmp(cond)
-			if !ok || core.StripConv(x) != typV {
+			if !ok || !isTypRead(core.StripConv(x)) {
 				return 0, 0
 			}
 			k, isC := core.ConstInt(y)
@@ -432,7 +593,7 @@ func C13(c *core.Ctx) {
 			}
 			b, isB := core.StripConv(x).(*ssa.BinOp)
 			k, isC := core.ConstInt(y)
-			if !isB || !isC || b.Op != token.AND || core.StripConv(b.X) != typV {
+			if !isB || !isC || b.Op != token.AND || !isTypRead(core.StripConv(b.X)) {
 				return 0, 0
 			}
 			if m1, ok := core.ConstInt(b.Y); !ok || m1 != 1 {
@@ -473,19 +634,51 @@ func C13(c *core.Ctx) {
 			fmt.Sprintf("parser of %s rejects unknown elements by a rule other than NDN's critical-type rule ¬ignoreCritical ∧ (typ ≤ 31 ∨ typ&1 == 1) (ignore atoms=%d, ≤31 atoms=%d, odd atoms=%d)", mk, r1.PassEdges, r2.PerLit[0], r2.PerLit[1]))
 		// non-rejected unknown elements are skipped by exactly l bytes
 		var skipDefault ssa.Instruction
+		// type and length are read in pairs (typ, l), in program order: the main loop's pair,
+		// and the pair of an inner loop that looks for a map value after its key. A site is
+		// decided against the nearest pair that dominates it.
+		pairLen := map[ssa.Value]bool{lenV: true}
+		{
+			sorted := append([]ssa.Value{}, tlReads...)
+			sort.Slice(sorted, func(i, j int) bool { return readPos(sorted[i]) < readPos(sorted[j]) })
+			for i := 1; i < len(sorted); i += 2 {
+				pairLen[sorted[i]] = true
+			}
+		}
+		lenFor := func(b *ssa.BasicBlock) ssa.Value {
+			var best ssa.Value
+			for v := range pairLen {
+				if v == nil {
+					continue
+				}
+				vb := v.(ssa.Instruction).Block()
+				if (vb == b || vb.Dominates(b)) && (best == nil || readPos(v) > readPos(best)) {
+					best = v
+				}
+			}
+			return best
+		}
+		curLen := lenV
 		isSkipL := func(in ssa.Instruction) bool {
 			cc, ok := core.IsCall(in, core.CalleeID{Pkg: "std/encoding", Recv: "ParseReader", Name: "Skip"})
-			if !ok || lenV == nil {
+			if !ok || curLen == nil {
 				return false
 			}
 			_, a := core.CallArgs(cc)
-			return core.StripConv(a[0]) == lenV
+			return core.StripConv(a[0]) == curLen
 		}
 		okSkip := true
 		nEdges := 0
 		isReject := func(in ssa.Instruction) bool {
 			for _, r := range rejects {
 				if r == in {
+					return true
+				}
+			}
+			// any return of an error rejects the message (the inner loop of a map field wraps
+			// the unrecognised-field error into a parse failure of the field)
+			if r, ok := in.(*ssa.Return); ok && len(r.Results) == 2 && !core.IsNilConst(core.Strip(r.Results[1])) {
+				if _, isMI := r.Results[1].(*ssa.MakeInterface); isMI {
 					return true
 				}
 			}
@@ -498,7 +691,11 @@ func C13(c *core.Ctx) {
 			// from the start of the critical-type test (whatever the order of its operands):
 			// every path either rejects or skips l bytes
 			nEdges++
+			if l := lenFor(f.E.From); l != nil {
+				curLen = l
+			}
 			fr := core.MustFollowDeep(fn, core.Point{Block: f.E.From, Idx: 0}, isSkipL, isReject)
+			curLen = lenV
 			if !fr.OK {
 				okSkip = false
 			}
@@ -652,4 +849,14 @@ func C13(c *core.Ctx) {
 	genSizeSwitches(c, "R13.4")
 	c.Floor("R13.2", "generated parsers analysed", nParsers, 79)
 	c.Floor("R13.3", "ordered parsers", nOrdered, 5)
+}
+
+// readPos: the source position of a (value, error) read whose first component v is.
+func readPos(v ssa.Value) token.Pos {
+	if e, ok := v.(*ssa.Extract); ok {
+		if cl, ok := e.Tuple.(*ssa.Call); ok {
+			return cl.Pos()
+		}
+	}
+	return v.Pos()
 }
